@@ -780,6 +780,13 @@ def _is_observer(e: ast.AST, top: bool = True) -> bool:
         return False
     if top and isinstance(e, ast.Tuple) and e.elts and all(isinstance(x, ast.Attribute) and _is_plain(x) for x in e.elts):
         return True     # a tuple of classes handed to isinstance
+    if isinstance(e, ast.Attribute) and e.attr == "empty":
+        # emptiness of a frame / of its complete rows: `x.empty`, `x.dropna().empty`
+        b = e.value
+        if _is_plain(b) and not isinstance(b, (ast.Name, ast.Constant)):
+            return True
+        if isinstance(b, ast.Call) and isinstance(b.func, ast.Attribute) and b.func.attr == "dropna" and not b.args and not b.keywords and _is_plain(b.func.value):
+            return True
     return False
 
 
